@@ -402,6 +402,7 @@ def r6c(prog, rep, config):
             else:
                 rep.violation('R6c', k, where=c.where(), fn=fn.name,
                               detail='a gain is filed under the year of Tx.%s: yearly figures must be keyed by the settlement year' % '/'.join(sorted(txf - {'settlement_date'}) or txf))
+    r6d(prog, rep)
     if n < 3:
         rep.violation('R6c', 'anchor-lost:year-sites', detail='anchor lost: only %d Date::year() sites on transaction dates in the gains/summary code' % n)
     # the per-security accumulation loop has no skipping adaptor
@@ -420,3 +421,57 @@ def r6c(prog, rep, config):
         else:
             rep.violation('R6c', 'total-and-year-add-same-value', fn=f.name, where='%s:%d' % (f.file, f.line),
                           detail='the table total and the yearly figures do not accumulate the same value (%s)' % [sorted(s) for s in srcs])
+
+
+# ---------------------------------------------------------------------------------------------------- R6d
+def r6d(prog, rep):
+    """every element of the summed collection reaches the accumulation: no conditional skip in the totals loops"""
+    specs = [('portfolio::cumulative_gains::calc_cumulative_capital_gains', None),
+             ('portfolio::cumulative_gains::calc_security_cumulative_capital_gains', 'capital_gain')]
+    for name, allowed_field in specs:
+        f = prog.fn(name)
+        if not rep.anchor(name.rsplit('::', 1)[-1], f):
+            continue
+        loops = f.iterator_loops()
+        if not loops:
+            rep.violation('R6d', '%s|anchor-lost:loop' % name, fn=name, detail='anchor lost: accumulation loop')
+            continue
+        # outermost iterator loop
+        nc, header, body = sorted(loops, key=lambda x: -len(x[2]))[0]
+        adds = [c for c in f.calls if c.bb in body and re.search(r'AddAssign::add_assign$|ops::Add::add$', c.decl)
+                and 'Decimal' in (f.ty.get(c.arg_local(0), '') + c.callee)]
+        if not adds:
+            rep.violation('R6d', '%s|anchor-lost:add' % name, fn=name, detail='anchor lost: Decimal accumulation inside the loop')
+            continue
+        first_add = adds[0]
+        # body entry = successor of the switch on next() for Some
+        sw = f.blocks[nc.target]['term'] if nc.target in f.blocks else None
+        entry = None
+        if sw and sw['t'] == 'switch':
+            some_t = [tg for v, tg in sw['targets'] if v == 1] or [sw['otherwise']]
+            entry = some_t[0]
+        if entry is None:
+            continue
+        # blocks from which the add is skipped legitimately: the None arm of the value's own Option
+        allowed = set()
+        if allowed_field:
+            for i, b in f.blocks.items():
+                t = b['term']
+                if i in body and t and t['t'] == 'switch':
+                    d = mir.provenance(f, t['discr'])
+                    if any(fl == allowed_field for of, fl in d.fields):
+                        vals = [v for v, tg in t['targets']]
+                        for v, tg in t['targets']:
+                            if v == 0:
+                                allowed.add(tg)
+                        if 0 not in vals:
+                            allowed.add(t['otherwise'])   # `if let Some(..)`: the otherwise edge is the None arm
+        reach = {entry} | f.reachable_from(entry, avoid={first_add.bb} | allowed)
+        k = '%s|every-element-is-accumulated' % name
+        if header in reach and entry != first_add.bb:
+            rep.violation('R6d', k, where=first_add.where(), fn=name,
+                          detail='an iteration of the totals loop can skip the accumulation (a conditional continue/skip): a figure that should be part of the '
+                                 'sum is left out, so a total no longer equals the sum of its rows')
+        else:
+            rep.ok('R6d', k, where=first_add.where(), fn=name, detail='every iteration reaches the accumulation%s' % (
+                ' (except rows without a capital gain)' if allowed_field else ''))
